@@ -34,6 +34,14 @@ class BLOB:
     def __len__(self):
         return self.size
 
+    def __eq__(self, other):
+        if not isinstance(other, BLOB):
+            return NotImplemented
+        return self.binary == other.binary and self.format == other.format
+
+    def __hash__(self):
+        return hash((self.binary, self.format))
+
 
 _SEXAGESIMAL_FORMAT_RE = re.compile(r"^%(\d*)\.(\d+)m$")
 
